@@ -1,5 +1,5 @@
 (* C02 — determinism across completion order, runner, concurrency. *)
-From HG Require Import Base Engine Exec EngineProofs Samples.
+From HG Require Import Base CheckLib Engine Exec EngineProofs NodeOrder Samples.
 From stdpp Require Import gmap.
 
 (* Any completion order of the concurrently running nodes of a step gives the same state,
@@ -37,6 +37,39 @@ Theorem C02_isolation : forall exec g snap pv rd acc log,
    log ++ async_calls exec g snap pv rd).
 Proof. exact superstep_sync_ok. Qed.
 Print Assumptions C02_isolation.
+
+(* NODE ORDER.  With unique output names (and node functions that return values for their own declared outputs only), a run
+   that completes under one listing of the nodes completes under every other listing of the same nodes, in the SAME state -
+   hence with the same returned values - and makes the same calls in every superstep, up to their order.  Any graph: gates,
+   cycles, wait_for included; both runners. *)
+Theorem C02_node_order : forall exec g1 g2 pv,
+  Permutation (g_nodes g1) (g_nodes g2) -> g_bound g1 = g_bound g2 -> g_active g1 = g_active g2 ->
+  List.NoDup (map n_name (g_nodes g1)) ->
+  (forall n s ins outs dec, In n (g_nodes g1) -> exec n s ins = OOk outs dec ->
+     forall k, In k (dkeys outs) -> In k (n_outputs n)) ->
+  (forall n m k, In n (g_nodes g1) -> In m (g_nodes g1) -> In k (n_outputs n) -> In k (n_outputs m) -> n_name n = n_name m) ->
+  (forall n, In n (g_nodes g1) -> is_interrupt n = false) ->
+  forall r fuel s l1, execute exec r fuel g1 pv = (RDone s, l1) ->
+  exists l2, execute exec r fuel g2 pv = (RDone s, l2) /\ Forall2 (@Permutation call) l1 l2.
+Proof. exact node_order_execute. Qed.
+Print Assumptions C02_node_order.
+
+(* the scheduler's view is listing-independent in EVERY state: same cleared decisions, same ready nodes *)
+Theorem C02_ready_order : forall g1 g2, Permutation (g_nodes g1) (g_nodes g2) -> g_bound g1 = g_bound g2 ->
+  g_active g1 = g_active g2 -> List.NoDup (map n_name (g_nodes g1)) ->
+  forall st, fst (ready g1 st) = fst (ready g2 st) /\ Permutation (snd (ready g1 st)) (snd (ready g2 st)).
+Proof.
+  intros g1 g2 Hp Hb Ha Hn st. split; [apply ready_state_perm | apply ready_list_perm]; assumption.
+Qed.
+Print Assumptions C02_ready_order.
+
+(* Non-vacuity: the diamond listed in reverse order runs to the same values. *)
+Example C02_node_order_nonvacuous :
+  let dag' := mk_graph (rev (g_nodes dag)) (g_bound dag) (g_active dag) in
+  Permutation (g_nodes dag) (g_nodes dag') /\
+  dictV_eqb (res_values (run_basic dag_ft [] Sync 10 dag [(1%positive, VInt 5)] None))
+            (res_values (run_basic dag_ft [] Async 10 dag' [(1%positive, VInt 5)] None)) = true.
+Proof. split; [apply Permutation_rev | vm_compute; reflexivity]. Qed.
 
 (* Non-vacuity: a real two-node step of the diamond DAG, both orders. *)
 Example C02_nonvacuous :
